@@ -312,6 +312,111 @@ pub fn edge_value_flows<S: ShortGroupSignatureScheme>(em: &mut Emitter, rng: &mu
     }
 }
 
+/// credentials obtained through the blind issuance flow (hidden link secret / several hidden claims) present like any other
+pub fn blind_issued_flows<S: ShortGroupSignatureScheme>(em: &mut Emitter, rng: &mut Rng, suite: &str) {
+    use credx::blind::BlindCredentialRequest;
+    use credx::claim::*;
+    use credx::issuer::Issuer;
+    use credx::statement::*;
+    use std::collections::BTreeMap;
+    for (case, blindable) in [("one-hidden", vec!["ssn"]), ("two-hidden", vec!["name", "ssn"]), ("number-hidden", vec!["age"])] {
+        let n_claims = 5;
+        let schema = cred_schema(n_claims, &blindable);
+        let (public, mut issuer) = Issuer::<S>::new(&schema);
+        let rid = format!("blind-{}-{}", case, rng.below(1 << 20));
+        let claims = claim_vector(rng, n_claims, &rid, "Blind Holder", 41);
+        let mut hidden = BTreeMap::new();
+        let mut known = BTreeMap::new();
+        for (i, l) in LABELS[..n_claims].iter().enumerate() {
+            if blindable.contains(l) {
+                hidden.insert(l.to_string(), claims[i].clone());
+            } else {
+                known.insert(l.to_string(), claims[i].clone());
+            }
+        }
+        em.oracle_case(&format!("{} blind-issued {}", suite, case));
+        em.count(&format!("edge:blind-issued-{}", case));
+        let bundle = match call(|| {
+            let (req, blinder) = BlindCredentialRequest::<S>::new(&public, &hidden)?;
+            let bb = issuer.blind_sign_credential(&req, &known)?;
+            bb.to_unblinded(&hidden, blinder)
+        }) {
+            Out::Ok(b) => b,
+            o => {
+                em.violation("blind-issuance-failed", format!("{}: honest blind issuance {} ({})", suite, o.class(), case), json!({"suite": suite, "case": case}));
+                continue;
+            }
+        };
+        // disclose one claim, keep a blind-issued one hidden, revocation statement, commitment on a blind-issued claim
+        let hid_idx = LABELS.iter().position(|l| *l == blindable[0]).unwrap();
+        let sig = SignatureStatement { disclosed: ["city".to_string()].into_iter().collect(), id: "sig0".to_string(), issuer: bundle.issuer.clone() };
+        let rev = RevocationStatement { id: "rev0".into(), reference_id: "sig0".into(), accumulator: bundle.issuer.revocation_registry, verification_key: bundle.issuer.revocation_verifying_key, claim: 0 };
+        let com = CommitmentStatement { id: "com0".into(), reference_id: "sig0".into(), message_generator: g1_from_dl(rng.scalar()), blinder_generator: g1_from_dl(rng.scalar()), claim: hid_idx };
+        for (variant, stmts) in [
+            ("signature-only", vec![Statements::<S>::from(sig.clone())]),
+            ("with-revocation-and-commitment", vec![sig.clone().into(), rev.clone().into(), com.clone().into()]),
+        ] {
+            let schema = PresentationSchema::new_with_id(&stmts, "blind");
+            let mut creds: indexmap::IndexMap<String, credx::presentation::PresentationCredential<S>> = indexmap::IndexMap::new();
+            creds.insert("sig0".into(), bundle.credential.clone().into());
+            for nonce in [vec![], rng.bytes(16)] {
+                let ok = match call(|| Presentation::create(&creds, &schema, &nonce)) {
+                    Out::Ok(p) => call(|| p.verify(&schema, &nonce)).is_ok(),
+                    _ => false,
+                };
+                if !ok {
+                    em.violation("honest-verify-rejected:blind-issued", format!("{}: honest presentation of a blind-issued credential ({}, {}) is not created / accepted", suite, case, variant), json!({"suite": suite, "case": case, "variant": variant}));
+                }
+            }
+        }
+    }
+}
+
+/// statements in an order of *calls* on one fresh thread: a one-sided range statement first and a two-sided one after it,
+/// and the reverse on another thread — whatever a thread has processed before must not matter
+pub fn call_order_flows<S: ShortGroupSignatureScheme + 'static>(em: &mut Emitter, rng: &mut Rng, suite: &str, tag: &str) {
+    let seeds: Vec<u64> = (0..2).map(|_| rng.next()).collect();
+    for (oi, order) in [["lower-only", "two-sided", "upper-only"], ["two-sided", "upper-only", "lower-only"]].iter().enumerate() {
+        let order: Vec<String> = order.iter().map(|s| s.to_string()).collect();
+        let suite_s = suite.to_string();
+        let seed = seeds[oi];
+        let res = std::thread::spawn(move || {
+            let mut rng = Rng::new(seed);
+            let mut out: Vec<(String, bool)> = vec![];
+            for shape in &order {
+                let age = rng.range(20, 60);
+                let range = match shape.as_str() {
+                    "lower-only" => (Some(age - 5), None),
+                    "upper-only" => (None, Some(age + 5)),
+                    _ => (Some(age - 5), Some(age + 5)),
+                };
+                let mix = Mix { n_creds: 1, n_claims: 3, age, disclosed: vec![vec![]], commitment: Some(2), range: Some(range), ..Default::default() };
+                let scn = Scn::<S>::build(&mut rng, &mix);
+                let ok = match scn.create() {
+                    Out::Ok(p) => scn.verify(&p).is_ok(),
+                    _ => false,
+                };
+                out.push((shape.clone(), ok));
+            }
+            let _ = suite_s;
+            out
+        })
+        .join();
+        em.oracle_case(&format!("{} call-order {}", suite, oi));
+        match res {
+            Ok(out) => {
+                for (i, (shape, ok)) in out.iter().enumerate() {
+                    em.count(&format!("call-order:{}:{}", shape, ok));
+                    if !ok {
+                        em.violation(&format!("{}:in-range-rejected:call-order", tag), format!("{}: an in-range {} statement is not created / accepted as call #{} of a fresh thread (earlier calls: {:?})", suite, shape, i + 1, out[..i].iter().map(|x| x.0.clone()).collect::<Vec<_>>()), json!({"suite": suite, "order": out.iter().map(|x| x.0.clone()).collect::<Vec<_>>() }));
+                    }
+                }
+            }
+            Err(_) => em.violation(&format!("{}:in-range-panicked:call-order", tag), format!("{}: a sequence of in-range range statements panicked on a fresh thread", suite), json!({"suite": suite})),
+        }
+    }
+}
+
 pub fn gen_c03(em: &mut Emitter, rng: &mut Rng) {
     em.rule = "random well-formed scenarios (1..3 credentials from distinct issuers, 3..6 claims of all five types, random disclosure subsets, \
                statement graphs over revocation / membership / equality / commitment / range (all bound patterns) / verifiable encryption (with and \
@@ -330,6 +435,14 @@ pub fn gen_c03(em: &mut Emitter, rng: &mut Rng) {
     }
     if em.mine(base + 3) {
         edge_value_flows::<Ps>(em, &mut rng.sub(9102), "ps");
+    }
+    if em.mine(base + 5) {
+        blind_issued_flows::<Bbs>(em, &mut rng.sub(9105), "bbs");
+        blind_issued_flows::<Ps>(em, &mut rng.sub(9106), "ps");
+    }
+    if em.mine(base + 6) {
+        call_order_flows::<Bbs>(em, &mut rng.sub(9107), "bbs", "c03");
+        call_order_flows::<Ps>(em, &mut rng.sub(9108), "ps", "c03");
     }
     if em.mine(base + 4) {
         crate::c06::revocation_claim_position::<Bbs>(em, &mut rng.sub(9103), "bbs", "c03");
